@@ -24,7 +24,7 @@ class DetectionItemToPlain(Contract):
     any other number as a list; regular expressions are written with their unescaped text; an item whose values are out of sync fails"""
     id = "C06.SigmaDetectionItem.to_plain"
     target = f"{DET}:SigmaDetectionItem.to_plain"
-    props = ("C06",)
+    props = ("C06", "C05")
     cases = tuple((nvals, mods, field, sync) for nvals in (0, 1, 2) for mods in ((), ("contains",), ("contains", "all"), ("re",), ("re", "i")) for field in (True, False) for sync in (True,)) + ((1, (), True, False),)
     assumed = ["value objects are abstract: to_plain() / to_plain(True) return opaque plain values"]
 
@@ -79,7 +79,7 @@ class DetectionItemFromMapping(Contract):
     a scalar becomes a one-element list; with the re modifier strings are taken unparsed"""
     id = "C06.SigmaDetectionItem.from_mapping"
     target = f"{DET}:SigmaDetectionItem.from_mapping"
-    props = ("C06", "C03")
+    props = ("C06", "C03", "C05")
     cases = (("f", "scalar"), ("f|contains|all", "list"), ("|contains", "scalar"), (None, "list"), ("f|nope", "scalar"), ("f|re|i", "scalar"), ("f|re", "nonstr"), ("f|re", "mixed"), ("f|re", "list"))
     assumed = ["sigma_type() and the SigmaDetectionItem constructor (modifier application, C03) are abstract"]
 
